@@ -64,6 +64,22 @@ def rewrite_cond(rng, B, A, sig):
     return Not(Not(B)), A
 
 
+def falsified_exception_query(rng, sig, conds):
+    """a query whose antecedent falsifies a rule of an upper tolerance layer: verifying and falsifying worlds tie
+    there with a non-empty common set of falsified rules, and the lower layers decide"""
+    cls, setup, base = gen.classify(sig, conds)
+    if setup is None or len(setup.part) < 2:
+        return None
+    li = rng.randrange(1, len(setup.part))
+    Bj, Aj = conds[rng.choice(list(setup.part[li]))]
+    A = And(Aj, Not(Bj))
+    if rng.random() < 0.4:
+        A = And(A, fml.rand_formula(rng, sig, 0, 0.0))
+    lo = conds[rng.choice(list(setup.part[rng.randrange(0, li)]))]
+    B = rng.choice([lo[0], Not(lo[0]), fml.rand_formula(rng, sig, 0, 0.0), Not(lo[1])])
+    return (B, A)
+
+
 def run_internal(case, rng, res):
     import json as _json, os, subprocess, tempfile
     sig, conds, fam = gen.gen_base(rng, 'strong', family='rand', nat=rng.randint(2, 4), ncond=rng.randint(1, 4))
@@ -125,17 +141,27 @@ def run_case(case):
             d = cnt.setdefault(k, {})
             d[sub] = d.get(sub, 0) + n
     weakly = rng.random() < 0.3
+    order_matters = tname in ('reorder', 'reverse')
+    # for the order transformations prefer layered shapes with exceptions (where a listing-order dependence of
+    # the enumeration could change a tie), and more tie-forcing queries
     sig, conds, fam = gen.gen_base(rng, 'weak_or_strong' if weakly else 'strong',
-                                   family=rng.choice([None, None, None, 'multiex', 'chain', 'conjcons', 'indep']))
+                                   family=rng.choice([None, 'multiex', 'chain', 'conjcons', 'multiex'] if order_matters else
+                                                     [None, None, None, 'multiex', 'chain', 'conjcons', 'indep']))
     twins = conds and tname in ('rewrite-base', 'compose', 'reorder') and rng.random() < 0.6
     if twins:
         # an identically spelled duplicate of one rule (counted twice by lexicographic inference); the
         # transformation below re-spells exactly one of the two copies
         conds = list(conds) + [conds[rng.randrange(len(conds))]]
     n = len(conds)
-    qs = gen.gen_queries(rng, sig, conds, 6, extra_atom_p=0.0, p_tie=0.8 if twins else 0.4)
+    qs = gen.gen_queries(rng, sig, conds, 6, extra_atom_p=0.0, p_tie=0.8 if twins else 0.7 if order_matters else 0.4)
     if rng.random() < 0.5 and conds:
         qs[0] = conds[0]                     # the first rule as a query (direct inference)
+    if order_matters or (tname == 'compose' and rng.random() < 0.5):
+        for qi in (2, 3, 4):
+            q = falsified_exception_query(rng, sig, conds)
+            if q is not None:
+                qs[qi] = q
+                bump('queries_falsifying_an_upper_layer_rule')
     mode = 'extended' if weakly else 'strict'
     bdesc = base_desc(sig, conds)
 
@@ -155,6 +181,15 @@ def run_case(case):
         keys2 = sorted(rng.sample(range(-n - 2, 5 * n + 5), n))
         if rng.random() < 0.5:
             rng.shuffle(keys2)
+        if n and rng.random() < 0.5:
+            # the key len+1 is in use (the slot a 'next free index' computed from the length would take),
+            # preferably by the first rule, which is often asked as a query
+            j = 0 if rng.random() < 0.6 else rng.randrange(n)
+            if n + 1 in keys2:
+                i = keys2.index(n + 1)
+                keys2[i], keys2[j] = keys2[j], keys2[i]
+            else:
+                keys2[j] = n + 1
         tdesc['keys'] = keys2
 
     def t_reorder():
